@@ -152,7 +152,9 @@ def run_case(case, rec):
         obj = c.value if c.ok else None
     elif t == 'header':
         c = call(commands.Basic.Properties, **case['props'])
-        obj = header.ContentHeader(0, case['size'], c.value) if c.ok else None
+        wgt = [0, 0, 1, 255, 65535, True][rec.evaluations % 6]
+        obj = header.ContentHeader(wgt, case['size'], c.value) \
+            if c.ok else None
     elif t == 'body':
         obj = body.ContentBody(case['body'])
     else:
